@@ -78,40 +78,48 @@ def collect(pid, name=None):
     return 0 if ok else 1
 
 
-def run(name, tier="quick"):
+def run(name, tier="quick", keep=False):
+    """Runs the property's check against a scratch worktree of /repo HEAD with the
+    seeded patch applied (the same thing as applying it to /repo and undoing it,
+    without disturbing /repo). Evidence of these runs goes to a scratch directory."""
     d = os.path.join(VERIF, "seeded", name)
     meta = json.load(open(os.path.join(d, "meta.json")))
     pid = meta["property"]
-    rc, st = sh("git status --porcelain --untracked-files=no", cwd="/repo")
-    if st.strip():
-        print("refusing: /repo has uncommitted changes to tracked files:\n" + st)
-        return 2
-    rc, o = sh(f"git apply {os.path.join(d, 'patch.diff')}", cwd="/repo")
+    wt = f"/tmp/seedrun-{name}"
+    sh(f"git -C /repo worktree remove --force {wt}")
+    rc, o = sh(f"git -C /repo worktree add -q --detach {wt} HEAD")
     if rc != 0:
-        print("patch does not apply:", o)
-        meta.setdefault("runs", []).append({"time": time.strftime("%F %T"), "tier": tier, "result": "patch does not apply"})
-        json.dump(meta, open(os.path.join(d, "meta.json"), "w"), indent=1)
+        print("cannot create worktree:", o)
         return 2
+    evdir = f"/tmp/seedrun-{name}-ev"
     try:
+        rc, o = sh(f"git apply {os.path.join(d, 'patch.diff')}", cwd=wt)
+        if rc != 0:
+            print(name, "patch does not apply:", o.strip()[:300])
+            meta.setdefault("runs", []).append({"time": time.strftime("%F %T"), "tier": tier, "result": "patch does not apply"})
+            meta["detected"] = None
+            json.dump(meta, open(os.path.join(d, "meta.json"), "w"), indent=1)
+            return 2
         props = meta.get("also_check", []) + [pid]
         results = {}
+        timeout = "-timeout 10" if tier == "quick" else "-timeout 60 -cross"
         for p in dict.fromkeys(props):
             t0 = time.time()
-            rc, o = sh(f"./check {p} {tier}", cwd=VERIF, timeout=3600)
+            rc, o = sh(f"bin/govc -repo {wt} -verif {VERIF} -evdir {evdir} {timeout} check {p} {tier}", cwd=VERIF, timeout=3600)
             viol = [l for l in o.splitlines() if l.startswith("VIOLATION")]
-            results[p] = {"exit": rc, "violations": viol, "wall_s": round(time.time() - t0, 1)}
+            results[p] = {"exit": rc, "violations": [v.replace(evdir, "<scratch>") for v in viol], "wall_s": round(time.time() - t0, 1)}
             print(f"{name}: check {p} {tier} -> exit {rc}; {len(viol)} violation line(s)")
             for v in viol[:6]:
                 print("   ", v[:260])
     finally:
-        sh("git checkout -- .", cwd="/repo")
+        sh(f"git -C /repo worktree remove --force {wt}")
+        if not keep:
+            shutil.rmtree(evdir, ignore_errors=True)
     detected = any(r["exit"] == 1 and r["violations"] for r in results.values())
     meta.setdefault("runs", []).append({"time": time.strftime("%F %T"), "tier": tier, "detected": detected, "results": results})
+    meta["runs"] = meta["runs"][-3:]
     meta["detected"] = detected
     json.dump(meta, open(os.path.join(d, "meta.json"), "w"), indent=1)
-    # evidence files were rewritten against the patched tree: rewrite them on the clean tree
-    for p in results:
-        sh(f"./check {p} quick", cwd=VERIF, timeout=3600)
     return 0 if detected else 1
 
 
@@ -127,6 +135,7 @@ def main():
         for m in sorted(glob.glob(os.path.join(VERIF, "seeded", "*", "meta.json"))):
             if run(os.path.basename(os.path.dirname(m)), tier) != 0:
                 bad += 1
+        print("seeded changes not detected or not applicable:", bad)
         sys.exit(1 if bad else 0)
 
 
